@@ -14,6 +14,11 @@ import time
 ROOT = os.path.dirname(os.path.dirname(os.path.abspath(__file__)))
 COQ = os.path.join(ROOT, "coq")
 CACHE = os.path.join(ROOT, ".cache")
+# Locations that `./fv mutate` overrides so that a mutated private copy of /repo can be checked without touching /repo
+REPO = os.environ.get("FV_REPO", "/repo")
+HARNESS_ROOT = os.environ.get("FV_HARNESS_ROOT", ROOT)
+TARGET = os.environ.get("FV_TARGET", os.path.join(CACHE, "target"))
+TAG = os.environ.get("FV_TAG", "")
 GUARD = "googlefonts_fontations_verif"
 FORBIDDEN = re.compile(
     r"\b(Admitted|admit|Axiom|Axioms|Parameter|Parameters|Conjecture|Conjectures|Hypothesis|Hypotheses|Variable|Variables"
@@ -174,8 +179,8 @@ def check_props_file(props):
 
 def cargo_build(bins, release=False, crate_dir="harness"):
     cmd = "cargo build --offline " + ("--release " if release else "") + " ".join("--bin " + b for b in bins)
-    return sh(cmd, cwd=os.path.join(ROOT, crate_dir), timeout=3000,
-              env={"RUSTFLAGS": "--cfg " + GUARD, "CARGO_TARGET_DIR": os.path.join(CACHE, "target")})
+    return sh(cmd, cwd=os.path.join(HARNESS_ROOT, crate_dir), timeout=3000,
+              env={"RUSTFLAGS": "--cfg " + GUARD, "CARGO_TARGET_DIR": TARGET})
 
 
 def run_shard(path):
@@ -232,41 +237,58 @@ def shard_case_text(path, idx):
         return ""
 
 
-def repo_lock(exclusive):
-    import fcntl
-    os.makedirs(CACHE, exist_ok=True)
-    fd = os.open(os.path.join(CACHE, "repo.lock"), os.O_CREAT | os.O_RDWR)
-    fcntl.flock(fd, fcntl.LOCK_EX if exclusive else fcntl.LOCK_SH)
-    return fd
-
-
 def check(pid, tier="quick", seed=None, extra_env=None):
-    if os.environ.get("FV_HAVE_REPO_LOCK"):
-        return check_locked(pid, tier, seed, extra_env)
-    fd = repo_lock(False)
-    try:
-        return check_locked(pid, tier, seed, extra_env)
-    finally:
-        os.close(fd)
+    return check_locked(pid, tier, seed, extra_env)
 
 
 def mutate(patch, pids, tier="quick"):
-    """Development aid: apply a patch to /repo under an exclusive lock, run the checks, always revert."""
-    fd = repo_lock(True)
-    os.environ["FV_HAVE_REPO_LOCK"] = "1"
+    """Development aid: check a MUTATED PRIVATE COPY of /repo (git worktree of HEAD + the patch) with a private copy of the
+    harness crates whose path dependencies point at that copy. /repo itself is never touched; no lock is needed.
+    Note: Coq files generated by translators (coq_pre_cmd) are regenerated from the mutated copy into the shared coq/ tree
+    and regenerated again from /repo by the next normal check."""
+    import shutil
+    import uuid
+    tag = "_mut_" + uuid.uuid4().hex[:8]
+    scratch = os.path.join(CACHE, "mut", tag)
+    os.makedirs(scratch, exist_ok=True)
+    repo2 = os.path.join(scratch, "repo")
     rcs = {}
     try:
-        rc, out, _ = sh(["git", "-C", "/repo", "apply", os.path.abspath(patch)])
+        rc, out, _ = sh(["git", "-C", "/repo", "worktree", "add", "--detach", repo2, "HEAD"])
+        if rc != 0:
+            print("cannot create worktree:\n" + out)
+            return 2
+        rc, out, _ = sh(["git", "-C", repo2, "apply", os.path.abspath(patch)])
         if rc != 0:
             print("patch does not apply:\n" + out)
             return 2
-        try:
-            for pid in pids:
-                rcs[pid] = check_locked(pid, tier, None, None)
-        finally:
-            sh("git -C /repo checkout -- .")
+        for crate in ("harness", "harness_ft"):
+            src = os.path.join(ROOT, crate)
+            if not os.path.isdir(src):
+                continue
+            dst = os.path.join(scratch, crate)
+            shutil.copytree(src, dst, ignore=shutil.ignore_patterns("target"))
+            ct = os.path.join(dst, "Cargo.toml")
+            open(ct, "w").write(open(ct).read().replace('"/repo/', '"' + repo2 + '/'))
+            cfg = os.path.join(dst, ".cargo", "config.toml")
+            if os.path.exists(cfg):
+                open(cfg, "w").write("[net]\noffline = true\n")
+        tgt = os.path.join(scratch, "target")
+        if os.path.isdir(os.path.join(CACHE, "target")):
+            sh(["cp", "-al", os.path.join(CACHE, "target"), tgt])
+        env = dict(os.environ)
+        env.update({"FV_REPO": repo2, "FV_HARNESS_ROOT": scratch, "FV_TARGET": tgt, "FV_TAG": tag})
+        for pid in pids:
+            p = subprocess.run([sys.executable, os.path.join(ROOT, "fv"), "check", pid, "--tier", tier], env=env, cwd=ROOT)
+            rcs[pid] = p.returncode
     finally:
-        os.close(fd)
+        sh(["git", "-C", "/repo", "worktree", "remove", "--force", repo2])
+        sh(["git", "-C", "/repo", "worktree", "prune"])
+        shutil.rmtree(scratch, ignore_errors=True)
+        shutil.rmtree(os.path.join(CACHE, "cases"), ignore_errors=False) if False else None
+        for pid in pids:
+            shutil.rmtree(os.path.join(CACHE, "cases", pid + tag), ignore_errors=True)
+            shutil.rmtree(os.path.join(ROOT, "replays", pid + tag), ignore_errors=True)
     print("mutate %s: %s" % (os.path.basename(patch), {k: ("DETECTED" if v else "missed") for k, v in rcs.items()}))
     return 0
 
@@ -276,10 +298,10 @@ def check_locked(pid, tier="quick", seed=None, extra_env=None):
     spec = specs[pid]
     t0 = time.time()
     seed = int(seed if seed is not None else os.environ.get("VERIF_SEED", "20260930"))
-    env = {"VERIF_SEED": str(seed), "VERIF_TIER": tier}
+    env = {"VERIF_SEED": str(seed), "VERIF_TIER": tier, "FV_REPO": REPO}
     broken = []       # things that no longer check (theorem / correspondence / tie)
     notes = []
-    ev_path = os.path.join(ROOT, "evidence", pid + ".json")
+    ev_path = os.path.join(ROOT, "evidence", pid + ".json") if not TAG else os.path.join(CACHE, "mut_evidence", pid + TAG + ".json")
     os.makedirs(os.path.dirname(ev_path), exist_ok=True)
     if os.path.exists(ev_path):
         os.remove(ev_path)
@@ -288,7 +310,7 @@ def check_locked(pid, tier="quick", seed=None, extra_env=None):
     d = spec["coq_dir"]
     pre = spec.get("coq_pre_cmd")
     if pre:
-        rcp, outp, _ = sh(pre, cwd=ROOT, timeout=600)
+        rcp, outp, _ = sh(pre, cwd=ROOT, timeout=600, env={"FV_REPO": REPO})
         if rcp != 0:
             broken.append({"kind": "broken-translation", "what": "translator `%s` failed on /repo's current source" % pre, "log": outp[-3000:]})
     # 1. proofs
@@ -317,7 +339,7 @@ def check_locked(pid, tier="quick", seed=None, extra_env=None):
     stats = {}
     mism = []
     shard_results = []
-    case_dir = os.path.join(CACHE, "cases", pid)
+    case_dir = os.path.join(CACHE, "cases", pid + TAG)
     bins = spec.get("bins", [spec["bin"]])
     rcb, outb, dt_build = cargo_build(bins, release=spec.get("release", False), crate_dir=spec.get("crate_dir", "harness"))
     if rcb != 0:
@@ -326,7 +348,7 @@ def check_locked(pid, tier="quick", seed=None, extra_env=None):
         prof = "release" if spec.get("release", False) else "debug"
         sh("rm -rf " + case_dir)
         for b in bins:
-            exe = os.path.join(CACHE, "target", prof, b)
+            exe = os.path.join(TARGET, prof, b)
             bdir = os.path.join(case_dir, b)
             os.makedirs(bdir, exist_ok=True)
             rch, outh, dt_run = sh([exe, tier, "--out", bdir] + spec.get("harness_args", []), timeout=spec.get("harness_timeout", 3000), env=env, cwd=ROOT)
@@ -368,7 +390,7 @@ def check_locked(pid, tier="quick", seed=None, extra_env=None):
             seen.add(key)
             print("KNOWN-FINDING: property=%s %s" % (pid, k["what"]))
     violations = 0
-    rdir = os.path.join(ROOT, "replays", pid)
+    rdir = os.path.join(ROOT, "replays", pid + TAG)
     if unknown or broken:
         os.makedirs(rdir, exist_ok=True)
         rp = os.path.join(rdir, "%d-%s.json" % (seed, tier))
